@@ -38,7 +38,13 @@ OPTS5 = [("v", "verbose", False, None), ("q", None, False, None)]
 OPT_SECTION5 = ("# Options:\n"
                 "#   -v, --verbose  More output (repeatable).\n"
                 "#   -q             Quiet.\n")
-TABLES = {True: (OPTS, OPT_SECTION), "T2": (OPTS2, OPT_SECTION2), "T3": (OPTS3, OPT_SECTION3), "T4": (OPTS4, OPT_SECTION4), "T5": (OPTS5, OPT_SECTION5)}
+OPTS6 = [("v", None, False, None), ("q", None, False, None), ("d", None, False, None), ("x", "extra", False, None)]
+OPT_SECTION6 = ("# Options:\n"
+                "#   -v           v\n"
+                "#   -q           q\n"
+                "#   -d           d\n"
+                "#   -x, --extra  x\n")
+TABLES = {"T6": (OPTS6, OPT_SECTION6), True: (OPTS, OPT_SECTION), "T2": (OPTS2, OPT_SECTION2), "T3": (OPTS3, OPT_SECTION3), "T4": (OPTS4, OPT_SECTION4), "T5": (OPTS5, OPT_SECTION5)}
 
 
 def opts_of(wo):
@@ -260,6 +266,12 @@ def family_usages():
     for ls in ([('seq', [a, ('anyopts',), x])], [('seq', [b, opt(f)])]), ([('seq', [a, opt(qf), x])], [('seq', [b, ('anyopts',)])]), \
               ([('seq', [a, ('anyopts',)])], [('seq', [b, ('anyopts',), x])]), ([('seq', [a, opt(f)])], [('seq', [b, opt(f), x])], [('seq', [('anyopts',), y])]):
         out.append(([l[0] for l in ls], True, av3))
+    # F9: `[options]` and an explicit option on the SAME line, two or three DIFFERENT options of the shortcut given
+    # (K41: which order of them was accepted depended on the hash order)
+    av9 = [list(t) for n in range(0, 5) for t in itertools.product(['a', '-v', '-q', '-d', '-x', '-vq'], repeat=n) if t.count('a') <= 1 and len(set(t)) == len(t)]
+    dv, vv, qv = o('d', '-d'), o('v', '-v'), o('q', '-q')
+    for l in ([('seq', [('anyopts',), a, opt(dv)])], [('seq', [a, ('anyopts',), opt(dv)])], [('seq', [('anyopts',), opt(dv), opt(a)])], [('seq', [opt(vv), ('anyopts',), a])]):
+        out.append((l, "T6", av9))
     # F4: defaults followed by text; values containing `=`
     t4 = ['a', 'v', '-s', '5', '--speed=5', '-s5', '-q', '--mode', 'slow', '-mk=v', '--depth=k=v', '-m=k=v']
     av4 = [list(t) for n in range(0, 4) for t in itertools.product(t4, repeat=n)]
